@@ -9,11 +9,11 @@ _K = " Claimed for the named kernels within the per-harness bounds listed in the
 
 CLAIMS = {
     "C01": {
-        "text": "Bounded model checking of the class reader's decoding kernels: every access-flag decoder (class, field, method, inner class, parameter, four module flag types) against the JVMS bit tables for all 65536 words; branch-target resolution (opcode position + signed 16/32-bit offset, error outside 0..=65535, error on truncated operands) for all positions and offsets; switch-operand alignment from every stream position; newarray atype decoding for all 256 bytes. Whole-file reading is outside the claim (symbolic execution of duke::read_class does not finish even on a concrete 591-byte class)." + _K,
+        "text": "Bounded model checking of the class reader's decoding kernels: every access-flag decoder (class, field, method, inner class, parameter, four module flag types) against the JVMS bit tables for all 65536 words; branch-target resolution (opcode position + signed 16/32-bit offset, error outside 0..=65535, error on truncated operands) for all positions and offsets; switch-operand alignment from every stream position; newarray atype decoding for all 256 bytes; the constant-pool reader on an empty pool and on one numeric entry (slot accounting for long/double, typed getters succeed exactly for their tag, values big-endian, index 0 / upper half / past-the-end are errors); the tree-building class visitor stores NestHost / ModuleMainClass / SourceFile / SourceDebugExtension / Deprecated+Synthetic facts in exactly their own slot and refuses a second one. Whole-file reading is outside the claim (symbolic execution of duke::read_class does not finish even on a concrete 591-byte class)." + _K,
         "ref": "DESIGN.md §6 C01",
     },
     "C02": {
-        "text": "Bounded model checking of the class writer's encoding kernels: if_helper / goto_helper / switch_helper emit bytes that, decoded by the JVMS, branch to exactly the requested target for every opcode position and target in u16 - narrow form iff the offset fits 16 bits, otherwise inverted-condition trampoline + goto_w (resp. goto_w / jsr_w), reserved slots patched later decode to the target for every later target, no arithmetic overflow; switch padding 4-aligns the operands; write_usize_as_u8/u16/u32 are exact or refuse; every access-flag encoder inverts its decoder. Whole-class writing (re-emission fixpoint, constant pool, attribute lengths) is outside the claim." + _K,
+        "text": "Bounded model checking of the class writer's encoding kernels: if_helper / goto_helper / switch_helper emit bytes that, decoded by the JVMS, branch to exactly the requested target for every opcode position and target in u16 - narrow form iff the offset fits 16 bits, otherwise inverted-condition trampoline + goto_w (resp. goto_w / jsr_w), reserved slots patched later decode to the target for every later target, no arithmetic overflow; switch padding 4-aligns the operands; write_usize_as_u8/u16/u32 are exact or refuse; get_arguments_size (the invokeinterface count) equals 1 + JVMS slots on templated method descriptors; every access-flag encoder inverts its decoder. Whole-class writing (re-emission fixpoint, constant pool, attribute lengths) is outside the claim." + _K,
         "ref": "DESIGN.md §6 C02",
     },
     "C04": {
@@ -49,7 +49,7 @@ CLAIMS = {
         "ref": "DESIGN.md §6 C18",
     },
     "C20": {
-        "text": "Bounded model checking of raw_class_file's writer per attribute and per constant-pool entry (a whole ClassFile does not finish symbolic execution): for each modelled value, attribute_length equals the number of bytes that follow it, the announced _len() equals the bytes written, count fields have the JVMS width and value, entries are emitted big-endian in order; every constant-pool entry kind has its JVMS tag, size and layout. Reading, and attributes with nested tables beyond those listed in the evidence, are outside the claim." + _K,
+        "text": "Bounded model checking of raw_class_file's writer per attribute and per constant-pool entry (a whole ClassFile does not finish symbolic execution): for each modelled value, attribute_length equals the number of bytes that follow it, the announced _len() equals the bytes written, count fields have the JVMS width and value, entries are emitted big-endian in order; every constant-pool entry kind has its JVMS tag, size and layout; read(write(x)) == x consuming all bytes for EnclosingMethod, NestMembers, MethodParameters and Exceptions. Reading in general, and attributes with nested tables beyond those listed in the evidence, are outside the claim." + _K,
         "ref": "DESIGN.md §6 C20",
     },
 }
